@@ -745,7 +745,7 @@ func genAlias(pkgs []*packages.Package, repo, out string) {
 	}
 }
 
-var aliasArity = map[string]int{"aliasCloneStmts": 3, "aliasGetReturns": 2, "aliasPublishedUses": 2, "aliasGlobalUses": 2, "aliasFields": 4,
+var aliasArity = map[string]int{"aliasCloneStmts": 3, "aliasGetReturns": 2, "aliasPublishedUses": 2, "aliasCacheStmts": 2, "aliasGlobalUses": 2, "aliasFields": 4,
 	"aliasLazy": 3, "aliasReturns": 4, "aliasClosure": 1, "aliasProblems": 1}
 
 // splitOrigin: "call:f" -> ("call", "f"); "fresh→[]" -> ("fresh→", "[]"); "fresh" -> ("fresh", "")
@@ -1074,13 +1074,34 @@ func emitGets(p *packages.Package, b *strings.Builder, emit func(string, []strin
 			}
 			for _, st := range flatStmts(fd.Body) {
 				s := nodeSrc(p.Fset, st)
-				if containsWord(s, "pr") || containsWord(s, "dq") {
+				if containsWord(strings.ReplaceAll(s, ".", " "), "pr") || containsWord(strings.ReplaceAll(s, ".", " "), "dq") {
 					uses = append(uses, fname+" | "+s)
 				}
 			}
 		}
 	}
 	emit("aliasPublishedUses", uses)
+	// the whole statement list of the cache file (what the key is, what is stored under it)
+	var all []string
+	for _, f := range p.Syntax {
+		if !strings.HasSuffix(p.Fset.Position(f.Pos()).Filename, "shameful_global_caches.go") {
+			continue
+		}
+		for _, d := range f.Decls {
+			fd, ok := d.(*ast.FuncDecl)
+			if !ok || fd.Body == nil {
+				continue
+			}
+			fname := fd.Name.Name
+			if fd.Recv != nil {
+				fname = strings.TrimPrefix(nodeSrc(p.Fset, fd.Recv.List[0].Type), "*") + "." + fname
+			}
+			for _, st := range flatStmts(fd.Body) {
+				all = append(all, fname+" | "+nodeSrc(p.Fset, st))
+			}
+		}
+	}
+	emit("aliasCacheStmts", all)
 }
 
 // flatStmts: the simple statements of a body (conditions of if statements as "if <cond>")
